@@ -5,6 +5,7 @@ CONSTANTS
   Weak_EvictWithoutBytes = FALSE
   Weak_CacheNotUpdatedOnCommit = FALSE
   Weak_RecheckKeepsRejected = FALSE
+  Weak_VarintBoundaryOffByOne = FALSE
   Weak_NonAtomicAdmission = FALSE
 INIT Init
 NEXT Next
